@@ -23,6 +23,9 @@ TRUSTED_BASE = [
     "NumPy's own x.todense()[index] on every generated in-grammar case (verdict kind 9)",
     "searchsorted modelled as plain bisection (Model/CooIndex.v bisect), validated through the kernel-level "
     "correspondence of _get_mask_pairs / get_array_selection only",
+    "Model/DokGetitem.v models _fancy_key (check_index, sanitize_index, posify_index on every sequence) by normalize_index "
+    "applied to the all-sequence key of full length — the same three helpers in the same order (generated fragments), "
+    "replace_ellipsis / padding / replace_none / clip_slice being the identity on such a key; tied by exact correspondence",
     "Model/GcxsGetitem.v (the GCXS getitem wrapper) and Model/DokGetitem.v (DOK.__getitem__): hand transcriptions, tied by "
     "EXACT API-level correspondence (data/indices/indptr/compressed axes; dict items) on every generated case, also on "
     "the out-of-domain cases for DOK/COO; convert_to_flat's odometer loop is abstracted to its row-major list meaning "
@@ -34,6 +37,11 @@ TRUSTED_BASE = [
 ]
 UNPROVED = [
     "GCXS getitem with SEVERAL index arrays: false of the code (finding D21, outer-product shape) — no theorem, clause only",
+    "DOK: a non-empty key of index sequences that does not name every axis raises NotImplementedError (clause "
+    "dok_array_key_not_for_every_axis, refuted in Props: dok_partial_array_key_refuted); dok_fancy_getitem_den_partial covers "
+    "integer sequences only (a key of per-axis boolean masks goes the same way through _fancy_key, tested, not stated)",
+    "index arrays are modelled as lists of integers: their dtype is not (finding narrow_dtype_index_array_overflow: "
+    "posify_index adds the extent in the array's own dtype; found by directed cases, no model)",
     "GCXS getitem with None and fewer than two surviving axes, or None after an integer: false of the code (D22/D27/D28, "
     "refuted in Props); every other None position is proved (gcxs_getitem_den_partial / gcxs_getitem_wf_partial)",
     "the GCXS theorems assume strictly increasing compressed axes (GCXS.__init__ -> check_compressed_axes enforces it; "
